@@ -149,7 +149,7 @@ struct InclEngine : Engine {
 		return "plan = one generated world (1..6 files in 1..3 directories under /sim/w; each file = optional metadata block, possibly with `transclude base:` absolute/relative, body lines, 0..4 markers "
 		       "naming existing files, missing files, the file itself, ancestors (cycles 2..n), the same file twice, absolute paths, dir/../file spellings, name.* wildcards with per-format siblings, {{TOC}}, "
 		       ">=1000-character markers, an unterminated {{) plus per-path faults (open_fail at the n-th open, read_error after k bytes, content changing between opens, a directory in place of a file) and 1..3 calls "
-		       "out of TRANSCLUDE(top, search path, source path, format) and MANIFEST(string|dstring|engine family). Oracle: (a) the run ends within a cap on fopen calls/bytes/basic blocks computed from the world; "
+		       "out of TRANSCLUDE(top, search path, source path, any of 13 formats), MANIFEST(string|dstring|engine family) and CLI (multimarkdown in-process: -t mmd|html|latex|.. -o OUT TOP, or batch mode -b with two file arguments). Oracle: (a) the run ends within a cap on fopen calls/bytes/basic blocks computed from the world; "
 		       "(b) acyclic worlds: byte equality with the reference transcluder replaying the recorded per-open content; (c) manifest = referenced paths once each in first-reference order. "
 		       "Distinct = plan hash; non-trivial = >=2 files and (a cycle or >=1 fired fault or nesting depth >=3).";
 	}
